@@ -149,9 +149,12 @@ def ob_two_calls(h):
 
 def obligations():
     P = ProblemTable
-    fs = [P.insert_temperature_interval, P._Ts_needing_insertion, P._categorise_insertion_targets, P._dedupe_monotonic, P._group_middle_inserts,
-          P._apply_interval_map, P._build_mid_block, P._rebuild_edge_block, P._insert_mid_block, P._append_placeholders, P._populate_from_neighbor,
-          P._build_top_or_bottom_block, P._initialise_insert_rows, P._interpolate_heat_columns, P._adjust_bottom_row, P._update_heat_capacity_pairs]
+    # the private helpers are listed for the evidence (hashes of what ran under the contract); a refactor that renames or removes one must
+    # not stop the check from deciding, so names that no longer exist are skipped (the contract is on insert_temperature_interval)
+    fs = [getattr(P, n) for n in ("insert_temperature_interval", "_Ts_needing_insertion", "_categorise_insertion_targets", "_dedupe_monotonic",
+          "_group_middle_inserts", "_apply_interval_map", "_build_mid_block", "_rebuild_edge_block", "_insert_mid_block", "_append_placeholders",
+          "_populate_from_neighbor", "_build_top_or_bottom_block", "_initialise_insert_rows", "_interpolate_heat_columns", "_adjust_bottom_row",
+          "_update_heat_capacity_pairs") if hasattr(P, n)]
     exp = ("width_is_gap_to_row_above", "dH_is_CP_times_width", "new_row_is_linear_interpolation", "old_row_curve_value_unchanged",
            "above_top_takes_end_value", "below_bottom_takes_end_value", "reinsert_returns_zero")
     return [
